@@ -361,11 +361,16 @@ func ruleTreeBounds(c *Ctx, r *R) {
 				}
 			case *ssa.Return:
 				if len(x.Results) == 1 && len(d.calls) == 0 || (len(x.Results) == 1) {
-					if call, ok := resolveVal(x.Results[0]).(*ssa.Call); ok {
+					// (the iterator may have been handed to a helper as a parameter: t.stopAbove(c.Forward(), upper))
+					all := false
+					if call, ok := resolveVal(argOf(resolveVal(x.Results[0]), d.calls)).(*ssa.Call); ok {
 						if cal := staticCallee(&call.Call); cal != nil && fname(cal) == sp.iter {
-							if k, ok := kindOf(d, farP); ok {
-								plainIter[k] = true
-							}
+							all = true
+						}
+					}
+					if all {
+						if k, ok := kindOf(d, farP); ok {
+							plainIter[k] = true
 						}
 					}
 				}
@@ -424,7 +429,7 @@ func ruleTreeBounds(c *Ctx, r *R) {
 			}
 			why := ""
 			// first argument: the cursor's iterator in the right direction
-			if ic, ok := resolveVal(call.Call.Args[0]).(*ssa.Call); !ok || staticCallee(&ic.Call) == nil || staticCallee(&ic.Call).Name() != sp.iter {
+			if ic, ok := resolveVal(argOf(resolveVal(call.Call.Args[0]), ws[0].calls)).(*ssa.Call); !ok || staticCallee(&ic.Call) == nil || staticCallee(&ic.Call).Name() != sp.iter {
 				why = "the iterated sequence is not c." + sp.iter + "()"
 			}
 			pred, recv := funcAndReceiver(call.Call.Args[1])
